@@ -14,7 +14,7 @@
 #include <stddef.h>
 #include <stdarg.h>
 
-#define VP_MAXLEN 768
+#define VP_MAXLEN 4096
 
 struct vp_harness {
 	const char *property;       /* "C20" */
